@@ -11,6 +11,7 @@ import (
 	"fmt"
 	"io"
 	"io/fs"
+	"os"
 	"runtime/debug"
 	"strings"
 	"sync"
@@ -364,6 +365,9 @@ func Run(cfg harness.Config, idx int, tp *tape.Tape) harness.Result {
 	pat := drawPattern(tp)
 	smp := sample{Input: e.Name, Encoding: encName, Bytes: len(data), Pattern: pat.String()}
 	res.Tracef("input=%s enc=%s bytes=%d utf16pos=%v mode=%d pat=%s", e.Name, encName, len(data), utf16pos, mode, pat)
+	if os.Getenv("VSIM_DUMP") != "" {
+		fmt.Fprintf(os.Stderr, "DUMP input=%s enc=%s mode=%d\n%q\n", e.Name, encName, mode, data)
+	}
 	res.Nontrivial = true
 	res.SchedHash = harness.HashStrings([]string{e.Name, encName, fmt.Sprint(mode, utf16pos), pat.String(), string(data)})
 
@@ -610,7 +614,7 @@ func runImport(res *harness.Result, tp *tape.Tape, e corpus.Entry, data []byte, 
 		// A crash of the compiler proper on one-shot input is outside this slice (C07);
 		// it is still a crash reached through Parse's stream path only if chunking matters.
 		res.Probe("import.oneshot_compile_panic")
-		res.Tracef("one-shot compile of an import of %s panicked: %s\nmain=%q\nimp.d2=%q", e.Name, clip(ref.Panic), main, clip(string(data)))
+		res.Tracef("one-shot compile of an import of %s panicked: %s\nmain=%q\nimp.d2=%q", e.Name, panicSummary(ref.Panic), main, clip(string(data)))
 		return
 	}
 	fault := tp.Weighted([]int{4, 2, 2}, "import.fault") // 0 chunked, 1 read error mid-file, 2 open error
@@ -639,6 +643,12 @@ func runImport(res *harness.Result, tp *tape.Tape, e corpus.Entry, data []byte, 
 		return
 	}
 	if got.Panic != "" {
+		if f := innermostD2Frame(got.Panic); strings.HasPrefix(got.Panic, "panic:") && !strings.Contains(f, "/d2parser/") && !strings.Contains(f, "/d2ast/") {
+			// the compiler proper crashed on what the faulty file system delivered (a
+			// truncated file is another program): outside the parser's stream slice
+			res.Probe("import.compile_panic_outside_the_parser")
+			return
+		}
 		res.Fail("C01", "O01.1", "import of %s, fault=%d, %s: %s", e.Name, fault, pat, got.Panic)
 		return
 	}
